@@ -596,6 +596,10 @@ def f_tree():
     # the low-index look-ahead also stops at a subcommand name
     add("low-index-multi-with-subs", cmd("p", [arg("files", num=(1, None), required=True), arg("dest", required=True), arg("f", "f", action="SetTrue")], subs=[leaf]),
         extra=["leaf", "a", "b"])
+    # ... also when both levels are named inside one group of short flags (so that `--` and a tail still fit the quick bound)
+    deepf = cmd("deep", [arg("vals", num=(0, None), delim=","), arg("w", "w", action="SetTrue")], short_flag="D")
+    add("global-settings-depth-2-flags", cmd("p", [arg("t", "t", action="SetTrue")], subs=[cmd("mid", [arg("m", "m", action="SetTrue")], subs=[deepf], short_flag="M")],
+                                             dont_delimit_trailing_values=True), extra=["-MD", "-M", "-D", "a,b", "-MDw", "-tMD"])
     # what becomes of argv[0]
     applets = [cmd("true"), cmd("ls", [arg("l", "l", "long", action="SetTrue"), arg("path", num=(0, None))], aliases=["dir"]),
                cmd("box", subs=[cmd("inner", [arg("i", "i", action="SetTrue")])])]
